@@ -19,9 +19,9 @@ import numpy as np
 from pvm.gen import c45_trees as tg
 
 PROP = "C45"
-N = {"quick": 500, "thorough": 30000}
+N = {"quick": 500, "thorough": 20000}
 WORKERS = {"quick": 4, "thorough": 16}
-TIMEOUT = {"quick": 300, "thorough": 900}
+TIMEOUT = {"quick": 300, "thorough": 3000}
 CASE_TIMEOUT = 60.0
 RULE = ("random trees of depth 0-4 over 12 leaf kinds (Scalar, DenseArray incl. length > 1000, "
         "SparseArray in csr/csc/coo/dia/bsr matrix and array classes, Variable, "
